@@ -5,12 +5,47 @@
 
 package fileutil
 
-// gFlagDir: the directory in which a complete, synced flag file was last created
+// gFlagDir: the directory in which a complete flag file (checksum + payload, both written in full), fsynced,
+// with its directory entry fsynced, was last created
 //@ ghost var gFlagDir int
 
+// a flag file counts as written only if it is complete and durable when CreateFlagFile reports
+// success: both parts (checksum, payload) written in full, the file fsynced after the last write, and
+// the directory entry made durable by an fsync of the directory it was created in
+// gFFIncomplete: a write to the flag file failed or was short; gFFSynced: the file was fsynced after
+// the last write to it; gFFHash / gFFData: which buffers were written
+//@ ghost var gFFIncomplete bool
+//@ ghost var gFFSynced bool
+//@ ghost var gFFWrites int
+//@ ghost var gFFDir int
+//@ extern github.com/lni/vfs (fs FS) PathJoin
+//@ ensures len(elem) == 2 ==> uf("pathdir", result) == elem[0]
+//@ extern github.com/lni/vfs (fs FS) Create
+//@ ensures result1 == nil ==> result0 != nil
+//@ ghostset gDirtyDir := ite(result1 == nil, uf("pathdir", name), old(gDirtyDir))
+//@ ghostset gFFDir := uf("pathdir", name)
+//@ ghostset gFFIncomplete := false
+//@ ghostset gFFSynced := false
+//@ ghostset gFFWrites := 0
+//@ extern github.com/lni/vfs (f File) Write
+//@ ghostset gFFIncomplete := old(gFFIncomplete) || err != nil || n != len(p)
+//@ ghostset gFFSynced := false
+//@ ghostset gFFWrites := old(gFFWrites) + 1
+//@ extern github.com/lni/vfs (f File) Sync
+//@ ghostset gFFSynced := result == nil
+//@ extern github.com/lni/vfs (f File) Close
+//@ func getHash [C16]
+//@ trusted md5 of the payload (crypto/md5 is outside the subset)
 //@ func CreateFlagFile [C16]
-//@ trusted file-system effects (create, write, file sync, close, directory sync) are outside the subset
-//@ ghostset gFlagDir := ite(result == nil, dir, old(gFlagDir))
+//@ noframe
+//@ nobounds
+//@ requires gDirtyDir == 0
+//@ free requires dir != 0
+//@ modifies gFlagDir, gDirtyDir, gFFIncomplete, gFFSynced, gFFWrites, gFFDir
+// (definition of gFlagDir: the directory given to the last successful CreateFlagFile; what success
+// guarantees is the next clause, which is proved)
+//@ ghostset gFlagDir := ite(err == nil, dir, old(gFlagDir))
+//@ ensures err == nil ==> !gFFIncomplete && gFFSynced && gFFWrites == 2 && gDirtyDir == 0 && gFFDir == dir
 
 
 
